@@ -52,9 +52,30 @@ def run_checks(repo, props):
     return fired
 
 
+def copytree_of_working_tree():
+    repo = os.environ.get("VERIF_REPO", "/repo")
+    d = tempfile.mkdtemp(prefix="grpchan-seeded.", dir=os.environ.get("TMPDIR", "/var/tmp"))
+    subprocess.check_call(["rsync", "-a", "--exclude", ".git", repo.rstrip("/") + "/", d + "/"])
+    return d
+
+
 def evaluate(mdir, props=None, tests=True):
     meta = json.load(open(os.path.join(mdir, "meta.json")))
     res = {"property": meta.get("property"), "confirm": {}}
+    if not tests:
+        # checker self-test: a scratch copy of the CURRENT working tree (not HEAD)
+        wt = copytree_of_working_tree()
+        try:
+            patch = os.path.abspath(os.path.join(mdir, "patch.diff"))
+            rc, out = sh("git apply --whitespace=nowarn %s" % patch, wt)
+            res["confirm"]["applies"] = (rc == 0)
+            if rc != 0:
+                return res
+            res["fired"] = run_checks(wt, props or registered())
+            res["caught_by_own_property"] = bool(res["fired"].get(meta.get("property")))
+            return res
+        finally:
+            shutil.rmtree(wt, ignore_errors=True)
     wt = worktree()
     try:
         patch = os.path.abspath(os.path.join(mdir, "patch.diff"))
@@ -143,6 +164,33 @@ def main():
             json.dump(meta, open(os.path.join(dst, "meta.json"), "w"), indent=1)
             print("imported as", dst)
         return 0
+    if cmd == "check":
+        # tools/seeded.py check <Cxx> [out.json]: replay the seeded mutants of one property against its check
+        prop = sys.argv[2]
+        sd = os.path.join(V, "seeded")
+        rows, missed = [], 0
+        for sid in sorted(os.listdir(sd)):
+            mdir = os.path.join(sd, sid)
+            if not os.path.exists(os.path.join(mdir, "patch.diff")):
+                continue
+            meta = json.load(open(os.path.join(mdir, "meta.json")))
+            if meta.get("property") != prop:
+                continue
+            res = evaluate(mdir, [prop], tests=False)
+            fired = res.get("fired", {}).get(prop, [])
+            ok = bool(fired) and not any(l.startswith("CHECK-ERROR") for l in fired)
+            if not res["confirm"].get("applies"):
+                print("seeded %-34s SKIP (patch no longer applies: tree moved on)" % sid)
+                rows.append({"id": sid, "status": "skip"})
+                continue
+            print("seeded %-34s %s %s" % (sid, "CAUGHT" if ok else "MISSED", fired[0][:160] if fired else ""))
+            rows.append({"id": sid, "status": "caught" if ok else "missed", "by": fired[:2]})
+            if not ok:
+                missed += 1
+        if len(sys.argv) > 3:
+            json.dump(rows, open(sys.argv[3], "w"))
+        print("seeded: %d replayed for %s, %d missed" % (len(rows), prop, missed))
+        return 2 if missed else 0
     if cmd == "check-all":
         props = registered()
         sd = os.path.join(V, "seeded")
